@@ -11,6 +11,7 @@ from .values import (
     Arr2V,
     Blk,
     ColDigitsV,
+    CondV,
     EnumV,
     ExcV,
     Lit,
@@ -177,6 +178,8 @@ def ite(ex, c, a, b):
         return mk_bool(z3.If(c, zbool(unwrap_bool(a)), zbool(unwrap_bool(b))))
     if _is_strish(a) and _is_strish(b):
         return Sym(z3.If(c, term(a), term(b)), "str")
+    if isinstance(a, EnumV) and isinstance(b, EnumV) and a.cls == b.cls:
+        return EnumV(a.cls, ite(ex, c, a.value, b.value))
     if isinstance(a, WellV) and isinstance(b, WellV):
         return WellV(term(ite(ex, c, a.r, b.r)) if not isinstance(ite(ex, c, a.r, b.r), int) else ite(ex, c, a.r, b.r),
                      ite(ex, c, a.c, b.c))
@@ -186,7 +189,7 @@ def ite(ex, c, a, b):
             return SeqV.of("tuple", [ite(ex, c, x, y) for x, y in zip(ia, ib)])
     if a is b:
         return a
-    raise Unsupported(f"conditional value of {type(a).__name__}/{type(b).__name__}")
+    return CondV(c, a, b)
 
 
 def _is_boolish(v):
@@ -424,6 +427,7 @@ def compare(ex, op, a, b):
     if op == "==":
         return equals(ex, a, b)
     # ordering
+    a, b = lift_raw(a), lift_raw(b)
     if isinstance(a, EnumV):
         a = a.value
     if isinstance(b, EnumV):
@@ -483,8 +487,26 @@ def identical(a, b):
     raise Unsupported("`is` on scalars")
 
 
+def lift_raw(v):
+    if z3.is_expr(v):
+        if z3.is_int(v):
+            return mk_num(v, "int")
+        if z3.is_real(v):
+            return mk_num(v, "real")
+        if z3.is_bool(v):
+            return mk_bool(v)
+        if z3.is_string(v):
+            return Sym(v, "str")
+    return v
+
+
 def equals(ex, a, b):
     """Python == for non-array values -> host bool or Sym bool."""
+    a, b = lift_raw(a), lift_raw(b)
+    if isinstance(a, CondV):
+        return mk_bool(z3.If(a.c, zbool(unwrap_bool(equals(ex, a.a, b))), zbool(unwrap_bool(equals(ex, a.b, b)))))
+    if isinstance(b, CondV):
+        return mk_bool(z3.If(b.c, zbool(unwrap_bool(equals(ex, a, b.a))), zbool(unwrap_bool(equals(ex, a, b.b)))))
     if a is None or b is None:
         return a is None and b is None
     if isinstance(a, EnumV) and isinstance(b, EnumV) and a.cls != b.cls:
@@ -745,7 +767,10 @@ def seq_index_checked(ex, v: SeqV, i):
     it = term(i, "int")
     if ex.pure == 0:
         if ex.p.branch(it < 0, "negindex"):
-            raise Unsupported("possibly negative symbolic index")
+            nt = term(n, "int")
+            if not ex.p.branch(it >= -nt, "index"):
+                _raise("IndexError")
+            return seq_get(ex, v, mk_num(it + nt, "int"))
         if not ex.p.branch(it < term(n, "int"), "index"):
             _raise("IndexError")
     return seq_get(ex, v, Sym(it, "int"))
